@@ -328,7 +328,7 @@ def run_harness(exe, lines, timeout=900):
         crashes[k] = err
         start = k + 1
         restarts += 1
-        if restarts > 60:
+        if restarts > 40:
             for j in range(start, len(lines)):
                 out[j] = "CRASH (too many restarts)"
             break
@@ -439,6 +439,9 @@ def run(ck):
                 small = shrink(harness, T, S, ops[:step + 1], key) if not ck.replay_path else ops
                 sl = show_case(T, S, small)
                 so, _ = run_harness(harness, [sl], timeout=120)
+                w2 = judge(T, S, small, so[0])
+                if w2[1] == key:
+                    what = w2[2]
                 ck.add_violation(key, "small_vector<%s,%d>: %s" % ({"i": "int", "d": "double", "s": "std::string",
                                                                      "k": "Tracked"}[T], S, what),
                                  {"case": sl, "original_case": lines[k], "impl": so[0], "model": mo,
